@@ -268,7 +268,38 @@ def extra_oracles(rng, tier):
         ok = ok and app.before == (b, b3) and app.after == (a, a3) and r1 is b3 and r2 is a3
     if not ok:
         out.append(Violation("c19-decorators", "decorator/alias forms", "decorator or deprecated alias registered differently"))
-    return out, {"evaluations": 12, "distinct_nontrivial": 12}
+    # a filter defined on one application belongs to that application only: another application
+    # (existing or created later) keeps the built-in meaning of the name, in its view and in dispatch
+    evals = 12
+    for k in range(6 if tier == "quick" else 40):
+        name = rng.choice(["int", "word", "hex", "tag%d" % rng.randrange(100), "float"])
+        rx = rng.choice([r"\d\d", r"[a-c]+", r"x", r"[0-9]"])
+        one = Application("verif_c19_fa_%d" % rng.randrange(10 ** 9))
+        other = Application("verif_c19_fb_%d" % rng.randrange(10 ** 9))
+        before = dict(other.filters)
+        one.set_filter(name, rx, str)
+        later = Application("verif_c19_fc_%d" % rng.randrange(10 ** 9))
+        evals += 3
+        if dict(other.filters) != before or dict(later.filters) != before:
+            out.append(Violation("c19-filter-shared", "A.set_filter(%r, %r); B.filters" % (name, rx),
+                                 "a filter set on one application shows in another application's filters"))
+            break
+        if one.filters.get(":" + name, (None,))[0] != rx:
+            out.append(Violation("c19-filter-own", "A.set_filter(%r, %r); A.filters" % (name, rx),
+                                 "the application's own view does not show the filter it was given"))
+            break
+        if ":" + name in before:
+            h = RC.fn(120)
+            other.set_route("/f/<v:%s>" % name, h)
+            later.set_route("/f/<v:%s>" % name, h)
+            got = [p.pattern for p in other.regular_routes] + [p.pattern for p in later.regular_routes]
+            want = before[":" + name][0]
+            if len(got) != 2 or got[0] != got[1] or "(?P<v>%s)" % want not in got[0]:
+                out.append(Violation("c19-filter-shared", "A.set_filter(%r, %r); B.set_route('/f/<v:%s>')" % (name, rx, name),
+                                     "another application's group route compiled to %r, the built-in filter gives %r"
+                                     % (got, want)))
+                break
+    return out, {"evaluations": evals, "distinct_nontrivial": evals}
 
 
 def classify(case, obs):
